@@ -476,6 +476,21 @@ func runC03(cfg *vh.Config) error {
 		}
 	}
 
+	// ---- stream 8: decimal texts: the model of decimal.NewFromString / String() (lib/Decimal.v) against the library
+	nDec := cfg.Scale(500, 10000)
+	for i := 0; i < nDec; i++ {
+		s := codecgen.DecimalText(r)
+		term, ok := codecgen.DecimalTerm(s)
+		res.Count("decimal-text")
+		res.Count(fmt.Sprintf("decimal-text accepted by decimal.NewFromString: %v", ok))
+		distinct.Add("dec:" + s)
+		em.add(fmt.Sprintf("CDecimal %s %s", codecgen.BytesTerm(s), term), "decimal-text", map[string]any{"text": s}, map[string]any{"decimal.NewFromString": short([]byte(term))})
+		em.caseNo++
+		if ok {
+			res.Sample(map[string]any{"stream": "decimal-text", "text": s, "accepted": true}, 8)
+		}
+	}
+
 	if tripped() {
 		res.Notes = append(res.Notes, fmt.Sprintf("the run stopped issuing calls after %d calls that did not return (killed worker processes); the remaining inputs were not executed", maxHard))
 	}
